@@ -897,6 +897,9 @@ func ruleLookupOrder(w *World, r *Report, e *Engine) {
 	// "evaluation stops at the first form that fails": a builtin or evaluator function that has bound the error of
 	// a callee answers success only behind the test that found it nil
 	droppedErrorRule(w, r, "C01.errors-surface")
+	// what a form evaluates to is decided by the form and its scope: the evaluator keeps no counters, tables or
+	// caches of its own between (or across) evaluations
+	sharedStateRule(w, r, "C01.no-process-state", "")
 	if mm := newEvalModel(w, e); mm.ok {
 		expansionOnlyRule(w, r, mm, "C01.expansion-only")
 	}
@@ -2282,6 +2285,49 @@ func scopeNewRule(w *World, r *Report, rule string) {
 			}
 			if allocates[f] {
 				changed = true
+			}
+		}
+	}
+	// ... and the exported scope makers of the package (what the evaluator calls for a new scope) with the
+	// functions of the package they get the scope from: a maker that hands out a recycled scope allocates nothing
+	for _, f := range w.pkgFuncs("env") {
+		if f.Parent() != nil || f.Signature.Recv() != nil || f.Object() == nil || !f.Object().Exported() {
+			continue
+		}
+		if res := f.Signature.Results(); res.Len() > 0 && isScopeT(res.At(0).Type()) {
+			allocates[f] = true
+		}
+	}
+	for changed := true; changed; {
+		changed = false
+		for f := range allocates {
+			for _, b := range f.Blocks {
+				if len(b.Instrs) == 0 {
+					continue
+				}
+				ret, ok := b.Instrs[len(b.Instrs)-1].(*ssa.Return)
+				if !ok || len(ret.Results) == 0 {
+					continue
+				}
+				v := resolveRet(ret.Results[0])
+				for depth := 0; depth < 4; depth++ {
+					switch y := v.(type) {
+					case *ssa.MakeInterface:
+						v = y.X
+					case *ssa.ChangeInterface:
+						v = y.X
+					case *ssa.Extract:
+						v = y.Tuple
+					}
+				}
+				if c, ok := v.(*ssa.Call); ok {
+					if g := c.Call.StaticCallee(); g != nil && fnPkgPath(g) == modPath+"/env" && len(g.Blocks) > 0 && !allocates[g] {
+						if res := g.Signature.Results(); res.Len() > 0 && isScopeT(res.At(0).Type()) {
+							allocates[g] = true
+							changed = true
+						}
+					}
+				}
 			}
 		}
 	}
